@@ -270,4 +270,150 @@ theorem interleaving_eq (c : Cls) (enc : Enc) (tr : List Trans) (ls ls1 : LoadSt
   rw [← h2]
   exact secGetData_lazy_eq_eager c enc tr ls ls hdrOff idx rfl rfl
 
+/-! ### segments -/
+
+structure SegObs where
+  index : Nat
+  stype : BitVec 32
+  flags : BitVec 32
+  offset : BitVec 64
+  vaddr : BitVec 64
+  paddr : BitVec 64
+  filesz : BitVec 64
+  memsz : BitVec 64
+  align : BitVec 64
+  secs : List (BitVec 16)
+  data : Option Bytes
+
+def segObs (g : Seg) : SegObs :=
+  { index := g.index, stype := g.stype, flags := g.flags, offset := g.offset, vaddr := g.vaddr,
+    paddr := g.paddr, filesz := g.filesz, memsz := g.memsz, align := g.align, secs := g.secs, data := g.data }
+
+/-- `segment_impl::free_data()` (as in Driver/Load.lean `segfree`) -/
+def segFreeData (g : Seg) : Seg := if g.isLazy then { g with data := none, isLoaded := false } else g
+
+theorem decodePhdr_lazy (c : Cls) (enc : Enc) (r : Bytes) (ss : BitVec 64) :
+    decodePhdr c enc r (segInit ss true) = { decodePhdr c enc r (segInit ss false) with isLazy := true } := by
+  cases c <;> rfl
+
+/-- **a lazily loaded segment, once its data is requested on a stream in any state, shows what
+    the eagerly loaded segment shows** (also when the eager data read fails: both show no data) -/
+theorem segGetData_lazy_eq_eager (c : Cls) (enc : Enc) (tr : List Trans) (ls ls' : LoadSt)
+    (hdrOff : Int) (hd : ls'.st.data = ls.st.data) (hk : ls'.st.kind = ls.st.kind) :
+    segObs (segGetData c tr ls' (segLoad c enc tr ls hdrOff true).2.1).2 =
+      segObs (segLoad c enc tr ls hdrOff false).2.1 := by
+  rw [segLoad_eq, segLoad_eq]
+  simp only [if_true, Bool.false_eq_true, if_false]
+  rw [segGetData_eq]
+  simp only [decodePhdr_isLoaded, segInit, Bool.not_false, if_true]
+  rw [segLoadData_snd, segLoadData_snd]
+  have e := decodePhdr_lazy c enc (wr (List.replicate (phdrSize c) 0) 0 (hdrRead tr ls.st hdrOff (phdrSize c)).2.1)
+    (hdrRead tr ls.st hdrOff (phdrSize c)).2.2
+  simp only [segInit] at e
+  rw [e]
+  simp only []
+  rw [segOutcome_indep c tr ls'.st (hdrRead tr ls.st hdrOff (phdrSize c)).1 (by simp [hd]) (by simp [hk])]
+  generalize segOutcome c tr _ _ _ _ _ = o
+  rcases o with _ | _ | d <;> simp [segApply, segObs]
+
+def runSegOps (c : Cls) (tr : List Trans) : LoadSt → Seg → List DataOp → LoadSt × Seg
+  | ls, g, [] => (ls, g)
+  | ls, g, .request :: r => runSegOps c tr (segGetData c tr ls g).1 (segGetData c tr ls g).2 r
+  | ls, g, .release :: r => runSegOps c tr ls (segFreeData g) r
+  | ls, g, .disturb p e f k :: r => runSegOps c tr (disturbSt ls p e f k) g r
+
+def SegFresh (g : Seg) : Prop := g.isLazy = true ∧ g.isLoaded = false ∧ g.data = none
+
+def segOutcomeOf (c : Cls) (tr : List Trans) (D : Bytes) (K : StreamKind) (g : Seg) : Option (Option Bytes) :=
+  segOutcome c tr { data := D, kind := K } g.stype g.filesz g.offset g.streamSize
+
+theorem seg_request_inv (c : Cls) (tr : List Trans) (ls : LoadSt) (g g' : Seg) (hg : SegFresh g)
+    (h : g' = g ∨ g' = (segApply g (segOutcomeOf c tr ls.st.data ls.st.kind g)).1) :
+    (segGetData c tr ls g').2 = (segApply g (segOutcomeOf c tr ls.st.data ls.st.kind g)).1 := by
+  obtain ⟨h1, h2, h3⟩ := hg
+  have e : segOutcome c tr ls.st g.stype g.filesz g.offset g.streamSize =
+      segOutcomeOf c tr ls.st.data ls.st.kind g :=
+    segOutcome_indep c tr ls.st { data := ls.st.data, kind := ls.st.kind } rfl rfl _ _ _ _
+  rw [segGetData_eq]
+  rcases h with h | h
+  · subst h
+    simp only [h2, Bool.not_false, if_true]
+    rw [segLoadData_snd, e]
+  · subst h
+    generalize ho : segOutcomeOf c tr ls.st.data ls.st.kind g = o at *
+    rcases o with _ | _ | d
+    · simp only [segApply, h2, Bool.not_false, if_true]
+      rw [segLoadData_snd, e]; rfl
+    · simp only [segApply, h2, Bool.not_false, if_true]
+      rw [segLoadData_snd]
+      simp only [e, segApply]
+    · simp [segApply]
+
+theorem seg_free_inv (g : Seg) (o : Option (Option Bytes)) (hg : SegFresh g) (g' : Seg)
+    (h : g' = g ∨ g' = (segApply g o).1) : segFreeData g' = g ∨ segFreeData g' = (segApply g o).1 := by
+  obtain ⟨h1, h2, h3⟩ := hg
+  left
+  rcases h with h | h
+  · rw [h]; cases g; simp_all [segFreeData]
+  · rw [h]
+    rcases o with _ | _ | d <;> (cases g; simp_all [segFreeData, segApply])
+
+theorem runSegOps_inv (c : Cls) (tr : List Trans) (D : Bytes) (K : StreamKind) (g : Seg) (hg : SegFresh g) :
+    ∀ (ops : List DataOp) (ls : LoadSt) (g' : Seg), ls.st.data = D → ls.st.kind = K →
+      (g' = g ∨ g' = (segApply g (segOutcomeOf c tr D K g)).1) →
+      (runSegOps c tr ls g' ops).1.st.data = D ∧ (runSegOps c tr ls g' ops).1.st.kind = K ∧
+      ((runSegOps c tr ls g' ops).2 = g ∨
+       (runSegOps c tr ls g' ops).2 = (segApply g (segOutcomeOf c tr D K g)).1) := by
+  intro ops
+  induction ops with
+  | nil => intro ls g' hd hk h; exact ⟨hd, hk, h⟩
+  | cons op r ih =>
+    intro ls g' hd hk h
+    cases op with
+    | request =>
+      simp only [runSegOps]
+      apply ih
+      · rw [segGetData_eq]; split <;> simp [hd]
+      · rw [segGetData_eq]; split <;> simp [hk]
+      · right; subst hd; subst hk; exact seg_request_inv c tr ls g g' hg h
+    | release => simp only [runSegOps]; exact ih ls _ hd hk (seg_free_inv g _ hg g' h)
+    | disturb p e f k => simp only [runSegOps]; exact ih _ g' hd hk h
+
+theorem segLoad_lazy_fresh (c : Cls) (enc : Enc) (tr : List Trans) (ls : LoadSt) (hdrOff : Int) :
+    SegFresh (segLoad c enc tr ls hdrOff true).2.1 := by
+  rw [segLoad_eq]; simp [SegFresh, segInit]
+
+/-- **any interleaving, segments** -/
+theorem seg_interleaving_eq (c : Cls) (enc : Enc) (tr : List Trans) (ls ls1 : LoadSt) (hdrOff : Int)
+    (ops : List DataOp) (hd : ls1.st.data = ls.st.data) (hk : ls1.st.kind = ls.st.kind) :
+    let x := runSegOps c tr ls1 (segLoad c enc tr ls hdrOff true).2.1 ops
+    segObs (segGetData c tr x.1 x.2).2 = segObs (segLoad c enc tr ls hdrOff false).2.1 := by
+  intro x
+  have hg := segLoad_lazy_fresh c enc tr ls hdrOff
+  obtain ⟨g1, g2, g3⟩ := runSegOps_inv c tr ls.st.data ls.st.kind _ hg ops ls1 _ hd hk (Or.inl rfl)
+  rw [← g1, ← g2] at g3
+  have h1 := seg_request_inv c tr x.1 _ x.2 hg g3
+  rw [h1, g1, g2]
+  have h2 := seg_request_inv c tr ls _ _ hg (Or.inl rfl)
+  rw [← h2]
+  exact segGetData_lazy_eq_eager c enc tr ls ls hdrOff rfl rfl
+
+/-! ### whole load: the open finding F15 -/
+
+def loadOk (r : M LoadRes) : Option Bool :=
+  match r with
+  | .ok r => some r.ok
+  | .error _ => none
+
+/-- ELF32/LSB, no sections, one PT_LOAD whose file range `[1000, 1004)` is beyond the 84-byte file -/
+def f15Image : Bytes := 
+  [127, 69, 76, 70, 1, 1, 1, 0, 0, 0, 0, 0, 0, 0, 0, 0, 2, 0, 3, 0, 1, 0, 0, 0, 0, 0, 0, 0, 52, 0, 0, 0, 0, 0, 0, 0, 0, 0, 0, 0, 52, 0, 32, 0, 1, 0, 40, 0, 0, 0, 0, 0, 1, 0, 0, 0, 232, 3, 0, 0, 0, 0, 0, 0, 0, 0, 0, 0, 4, 0, 0, 0, 4, 0, 0, 0, 4, 0, 0, 0, 1, 0, 0, 0]
+
+/-- **F15 (open)** : `load()` answers differently for the same image — eagerly `false` (the segment's
+    data cannot be read), lazily `true` (the data is neither read nor bounds-checked) -/
+theorem lazy_load_unreadable_segment_witness :
+    loadOk (load {} { data := f15Image } false) = some false ∧
+    loadOk (load {} { data := f15Image } true) = some true := by
+  decide +kernel
+
 end ElfioVerif.C15
